@@ -628,4 +628,80 @@ theorem flatMap_front (ps : List Push) (b : String) (k : Push → List Delivery)
   | nil => rfl
   | cons p ps ih => by_cases hp : p.front = b <;> simp [List.flatMap_cons, hp, ih]
 
+/-! ### the "sessions" component flag and the independence of the channel map from the sessions -/
+
+theorem noSessions_step (ser : String → List Nat) (s : St) (op : Op) : (step ser s op).1.noSessions = s.noSessions := by
+  cases op <;> rfl
+
+theorem noSessions_run (ser : String → List Nat) (s : St) (ops : List Op) : (run ser s ops).noSessions = s.noSessions := by
+  induction ops generalizing s with
+  | nil => rfl
+  | cons op ops ih => simp only [run, List.foldl_cons] at ih ⊢; rw [ih, noSessions_step]
+
+/-- the channel map evolves the same whatever the sessions, the local name and the component flag are -/
+theorem svc_step_indep (ser : String → List Nat) (s₁ s₂ : St) (op : Op) (h : s₁.svc = s₂.svc) :
+    (step ser s₁ op).1.svc = (step ser s₂ op).1.svc := by
+  cases op <;> simp [step, h]
+
+theorem svc_run_indep (ser : String → List Nat) (s₁ s₂ : St) (ops : List Op) (h : s₁.svc = s₂.svc) :
+    (run ser s₁ ops).svc = (run ser s₂ ops).svc := by
+  induction ops generalizing s₁ s₂ with
+  | nil => exact h
+  | cons op ops ih => simp only [run, List.foldl_cons] at ih ⊢; exact ih _ _ (svc_step_indep ser s₁ s₂ op h)
+
+/-! ### session ids before the 32-bit counter wraps -/
+
+def isSadd : Op → Bool
+  | .sadd => true
+  | _ => false
+
+theorem fresh_step (ser : String → List Nat) (s : St) (op : Op) (h : s.front.nextId + 1 < 2 ^ 32)
+    (hb : ∀ x ∈ s.front.live, x ≤ s.front.nextId) :
+    (step ser s op).1.front.nextId = s.front.nextId + (if isSadd op then 1 else 0) ∧
+    ∀ x ∈ (step ser s op).1.front.live, x ≤ (step ser s op).1.front.nextId := by
+  cases op with
+  | sadd =>
+    have hmod : (s.front.nextId + 1) % 2 ^ 32 = s.front.nextId + 1 := Nat.mod_eq_of_lt h
+    have hnz : ¬ (s.front.nextId + 1 = 0) := by omega
+    simp only [step, Front.addSession, allocId, hmod, if_neg hnz, isSadd, if_true]
+    refine ⟨by simp, fun x hx => ?_⟩
+    split at hx
+    · have := hb x hx; omega
+    · simp only [List.mem_append, List.mem_singleton] at hx
+      rcases hx with hx | hx
+      · have := hb x hx; omega
+      · omega
+  | sdel id =>
+    simp only [step, Front.removeSession, isSadd]
+    by_cases hm : id ∈ s.front.live
+    · simp only [hm, if_true]
+      exact ⟨by simp, fun x hx => hb x (List.mem_of_mem_erase hx)⟩
+    · simp only [hm, if_false]; exact ⟨by simp, hb⟩
+  | sclose id =>
+    simp only [step, Front.closeSession, isSadd]
+    by_cases hm : id ∈ s.front.live
+    · simp only [hm, if_true]; exact ⟨by simp, hb⟩
+    · simp only [hm, if_false]; exact ⟨by simp, hb⟩
+  | addch c => exact ⟨by simp [step, isSadd], hb⟩
+  | getch c => exact ⟨by simp [step, isSadd], hb⟩
+  | delch c => exact ⟨by simp [step, isSadd], hb⟩
+  | join c f x => exact ⟨by simp [step, isSadd], hb⟩
+  | leave c f x => exact ⟨by simp [step, isSadd], hb⟩
+  | bcast c r m => exact ⟨by simp [step, isSadd], hb⟩
+  | spush ids r d => exact ⟨by simp [step, isSadd], hb⟩
+
+theorem fresh_run (ser : String → List Nat) (ops : List Op) (s : St)
+    (h : s.front.nextId + ops.countP isSadd + 1 < 2 ^ 32) (hb : ∀ x ∈ s.front.live, x ≤ s.front.nextId) :
+    (run ser s ops).front.nextId = s.front.nextId + ops.countP isSadd ∧
+    ∀ x ∈ (run ser s ops).front.live, x ≤ (run ser s ops).front.nextId := by
+  induction ops generalizing s with
+  | nil => exact ⟨by simp [run], hb⟩
+  | cons op ops ih =>
+    rw [List.countP_cons] at h ⊢
+    obtain ⟨h1, h2⟩ := fresh_step ser s op (by omega) hb
+    have := ih (step ser s op).1 (by rw [h1]; omega) h2
+    simp only [run, List.foldl_cons] at this ⊢
+    rw [h1] at this
+    exact ⟨by rw [this.1]; omega, this.2⟩
+
 end Cell2v.Channel
